@@ -371,6 +371,32 @@ func (c *Ctx) c07ReencodeCase() {
 	ans, _ := c07ReadMeshAns(bs)
 	c.Emit("c07.readmesh", hx(bs), ans)
 	c.c07Readers(bs, c.Rng.Intn(8) == 0)
+	c.c07TameFile()
+}
+
+// a file with tame coordinates and a mixture of zero / non-unit / unit stored normals: the geometric
+// fallback of ReadMesh, checked against the geometric statement itself
+func (c *Ctx) c07TameFile() {
+	var b stl.Binary
+	n := 1 + c.Rng.Intn(6)
+	b.Triangles = make([]stl.Triangle, n)
+	v := func() stl.Vec {
+		return stl.Vec{X: float32(c.Rng.Intn(41)-20) / 4, Y: float32(c.Rng.Intn(41)-20) / 4, Z: float32(c.Rng.Intn(41)-20) / 4}
+	}
+	for i := range b.Triangles {
+		t := stl.Triangle{Vertex1: v(), Vertex2: v(), Vertex3: v()}
+		if c.Rng.Intn(2) == 0 {
+			t.Normal = v() // arbitrary, mostly non-unit
+		}
+		b.Triangles[i] = t
+	}
+	var buf bytes.Buffer
+	if err := stl.Write(&buf, b); err != nil {
+		return
+	}
+	if _, back := c07ReadMeshAns(buf.Bytes()); back != nil {
+		c.Emit("c07.holds.geometric_fallback", hx(buf.Bytes())+" "+c07Mesh(*back), "true")
+	}
 }
 
 func (c *Ctx) c07MalformedCase() {
@@ -448,6 +474,9 @@ func (c *Ctx) c07MeshCase(oob bool) {
 	}
 	c.c07PipeFromWriter(m, bs)
 	c.c07Readers(bs, c.Rng.Intn(8) == 0)
+	if m.HasFloat3Attribute(modeling.PositionAttribute) && m.HasFloat3Attribute(modeling.NormalAttribute) {
+		c.Emit("c07.holds.unit_mean", c07Mesh(m)+" "+hx(bs), "true")
+	}
 	rans, back := c07ReadMeshAns(bs)
 	// the bytes WriteMesh produced may contain non-canonical NaN words, which the model does not see
 	// through float arithmetic; ReadMesh's answer is canonicalised per float64, so this is exact.
